@@ -59,6 +59,9 @@ class Explorer:
         c = strip_casts(core)
         if c[0] == 'const':
             return (c[1] != 0) == pol
+        if c[0] == 'phi' and ('%' + c[1]) in st['cells']:
+            cv = st['cells']['%' + c[1]]
+            return None if cv is None else (bool(cv) == pol)
         if c[0] == 'phi' and depth < 8:
             ins = c[2]
             if ins.block.name != self._cur:
@@ -114,6 +117,37 @@ class Explorer:
             st = self._thaw(fs)
             b = f.blocks[bname]
             self._cur = bname
+            # boolean phis (short-circuit results): resolve by the incoming edge and remember as cells '%name'
+            if prev is not None:
+                forked = False
+                for ins in b.insns:
+                    if ins.op != 'phi' or ins.ty != ('int', 1):
+                        continue
+                    r = None
+                    for v, src in ins.extra['incoming']:
+                        if src != prev:
+                            continue
+                        if v[0] == 'int':
+                            r = bool(v[1] & 1)
+                        elif v[0] == 'reg' and ('%' + v[1]) in st['cells']:
+                            cv = st['cells']['%' + v[1]]
+                            r = None if cv is None else bool(cv)
+                        else:
+                            self._cur = src          # the value was computed in the predecessor
+                            r = self._eval(self.P.expr(v), st, None)
+                            self._cur = bname
+                        break
+                    if isinstance(r, tuple):
+                        _, name, polarity = r
+                        for val in (True, False):
+                            s2 = self._thaw(fs)
+                            s2['facts'][name] = val
+                            work.append((bname, prev, self._freeze(s2)))
+                        forked = True
+                        break
+                    st['cells']['%' + ins.res] = None if r is None else int(r)
+                if forked:
+                    continue
             halted = False
             for ins in b.insns:
                 if ins.op == 'store':
@@ -160,10 +194,28 @@ class Explorer:
                     work.append((x, bname, fz))
         return exits
 
+    def ret_bool(self, st, blk):
+        """boolean a predicate function returns at the `ret` of block blk in state st (None: undetermined)"""
+        t = self.f.blocks[blk].term
+        if not t.ops:
+            return None
+        v = t.ops[0]
+        if v[0] == 'int':
+            return bool(v[1])
+        while v[0] == 'reg':
+            if ('%' + v[1]) in st['cells']:
+                cv = st['cells']['%' + v[1]]
+                return None if cv is None else bool(cv)
+            d = self.f.defs.get(v[1])
+            if d is None or d.op not in ('zext', 'trunc', 'sext') or d.ops[0][0] != 'reg':
+                return None
+            v = d.ops[0]
+        return None
+
     @staticmethod
     def _freeze(st):
-        return (tuple(sorted(st['cells'].items(), key=lambda kv: kv[0])),
-                tuple(sorted(st['facts'].items(), key=lambda kv: kv[0])))
+        return (tuple(sorted(st['cells'].items(), key=lambda kv: str(kv[0]))),
+                tuple(sorted(st['facts'].items(), key=lambda kv: str(kv[0]))))
 
     @staticmethod
     def _thaw(fs):
